@@ -40,6 +40,7 @@ pub enum K {
     PageFault,
     /// pushfq emulated in single-step mode (value pushed in `val`)
     Pushfq,
+    Xgetbv,
     /// popfq intercepted in single-step mode (operand in `val`; not executed when `capture_popfq` is set)
     Popfq,
 }
@@ -75,7 +76,7 @@ impl Event {
 }
 
 #[cfg(not(miri))]
-pub const MAX_EVENTS: usize = 1 << 16;
+pub const MAX_EVENTS: usize = 1 << 17;
 #[cfg(miri)]
 pub const MAX_EVENTS: usize = 16;
 static mut EVENTS: [Event; MAX_EVENTS] = [Event::empty(); MAX_EVENTS];
@@ -111,6 +112,8 @@ pub struct Regs {
     pub swapgs_count: u64,
     /// single-step mode: value an emulated pushfq pushes (None = the real flags with the emulated IF)
     pub rflags_override: Option<u64>,
+    /// single-step mode: value every xgetbv reports (None = the instruction runs natively)
+    pub xgetbv_override: Option<u64>,
     /// single-step mode: other RFLAGS bits (VIF, VIP, AC, ID, IOPL, NT) the emulated pushfq reports as set
     pub pushfq_or: u64,
     /// single-step mode: intercept popfq, record its operand and skip it (the operand becomes the next override)
@@ -134,6 +137,7 @@ pub static mut REGS: Regs = Regs {
     mirror_if: false,
     swapgs_count: 0,
     rflags_override: None,
+    xgetbv_override: None,
     pushfq_or: 0,
     capture_popfq: false,
 };
@@ -662,6 +666,23 @@ extern "C" fn handler(sig: i32, info: *mut libc::siginfo_t, uc: *mut libc::c_voi
                     push_event(ev);
                     continue;
                 }
+                // xgetbv (0F 01 D0) is unprivileged too: with an emulated XCR0 chosen by the test it is emulated here
+                if opc == 0x0f && *(rip as *const u8).add(1) == 0x01 && *(rip as *const u8).add(2) == 0xd0 {
+                    if let Some(v) = regs().xgetbv_override {
+                        let ecx = ctx.get(1) & 0xffff_ffff;
+                        ctx.set(0, v & 0xffff_ffff);
+                        ctx.set(2, v >> 32);
+                        ctx.set_rip(rip + 3);
+                        let mut ev = Event::empty();
+                        ev.kind = K::Xgetbv;
+                        ev.n = ecx as u32;
+                        ev.val = v;
+                        ev.rip = rip;
+                        ev.len = 3;
+                        push_event(ev);
+                        continue;
+                    }
+                }
                 if opc != 0x9c {
                     break;
                 }
@@ -833,6 +854,7 @@ pub fn fmt_event(e: &Event) -> String {
         K::Invlpg => format!("invlpg [{:#x}]", e.ea),
         K::Invpcid => format!("invpcid type={:#x} desc={:02x?}", e.val2, e.mem),
         K::Invlpgb => format!("invlpgb rax={:#x} ecx={:#x} edx={:#x}", e.val, e.val2, e.val3),
+        K::Xgetbv => format!("xgetbv ecx={:#x} -> {:#x}", e.n, e.val),
         K::In => format!("in{} dx={:#x} -> {:#x}", e.width * 8, e.n, e.val),
         K::Out => format!("out{} dx={:#x} val={:#x}", e.width * 8, e.n, e.val),
         K::Lgdt | K::Lidt => format!("{:?} limit={:#x} base={:#x}", e.kind, e.n, e.val),
